@@ -23,7 +23,9 @@ package osutil_test
 //     files are removed from the tree."
 //  T1 tree: "subdirectories where files were removed that are now empty will itself
 //     be removed, plus its parent directories up to but not including the base
-//     directory"; other empty directories are left open (may exist or not).
+//     directory"; a directory that existed before and in/below which nothing was
+//     removed stays (violations of exactly this shape carry fingerprint F-C23-1);
+//     directories that exist only because of the content map are left open.
 //  K  invalid keys (name outside the globs, path component, directory inside the
 //     namespace of the globs): error, unrelated entries untouched.
 //
@@ -174,6 +176,7 @@ func c23WantNode(w c23Want, before map[string]c23Node) (c23Node, bool) {
 func c23Judge(c c23Case, tree bool, r c23Result) (v c23Verdict, verdict error) {
 	lab := map[string]bool{}
 	defer func() { v.labels = verifkit.SortedKeys(lab) }()
+	var pendingKnown error // a known-finding deviation; reported only if nothing else is wrong
 	fail := func(format string, args ...interface{}) (c23Verdict, error) {
 		return v, verifkit.Violatef("%s [returned changed=%q removed=%q err=%v]", fmt.Sprintf(format, args...), r.changed, r.removed, r.err)
 	}
@@ -502,6 +505,16 @@ func c23Judge(c c23Case, tree bool, r c23Result) (v c23Verdict, verdict error) {
 			}
 			return false
 		}
+		wantsBeneath := func(d string) bool {
+			pre := d + "/"
+			for p := range wants {
+				if strings.HasPrefix(p, pre) {
+					return true
+				}
+			}
+			return false
+		}
+		var prunedForNothing []string
 		removedIn := map[string]bool{}
 		for _, p := range managed {
 			if unremovable[p] {
@@ -556,10 +569,40 @@ func c23Judge(c c23Case, tree bool, r c23Result) (v c23Verdict, verdict error) {
 				}
 				lab["dir-pruned"] = true
 			default:
-				// open: an empty directory may stay or go
 				if present && a.Kind != "dir" {
 					return fail("%s: %s is %v, not a directory", class, d, a)
 				}
+				// T1 says which directories are pruned: those "where files were removed
+				// that are now empty" and then their parents.  A directory that was
+				// there before, in which (and below which) nothing was removed, stays.
+				// Open: directories that only exist because of the content map, and,
+				// after a failure, directories in which desired files may have been
+				// written and erased again.
+				b, existed := before[d]
+				if !existed || isManagedEntry(d) || (class == "fail-closed" && wantsBeneath(d)) {
+					continue
+				}
+				if !present {
+					prunedForNothing = append(prunedForNothing, d)
+				} else if b.Ino != a.Ino {
+					return fail("%s: directory %s was recreated (ino %d -> %d)", class, d, b.Ino, a.Ino)
+				}
+			}
+		}
+		if len(prunedForNothing) > 0 {
+			if len(r.removed) == 0 {
+				return fail("%s: unrelated empty directories %q disappeared although nothing was removed at all", class, prunedForNothing)
+			}
+			// F-C23-1: EnsureTreeState queues a directory for pruning when the
+			// *cumulative* removed list is non-empty (synctree.go: `if len(removed) != 0`
+			// instead of the directory's own list), so whether an unrelated empty
+			// directory survives depends on the map iteration order.
+			if verifkit.IsKnown("C23", "F-C23-1") {
+				lab["known-F-C23-1-tolerated"] = true
+			} else {
+				pendingKnown = verifkit.Knownf("F-C23-1", "%s: pre-existing empty directories %q, in and below which no managed file was removed, were removed "+
+					"(some other directory had removals %q); T1 prunes only directories where files were removed, and the outcome depends on map order",
+					class, prunedForNothing, r.removed)
 			}
 		}
 		for _, p := range c23SortedPaths(after) {
@@ -671,5 +714,5 @@ func c23Judge(c c23Case, tree bool, r c23Result) (v c23Verdict, verdict error) {
 			v.nonTrivial = true
 		}
 	}
-	return v, nil
+	return v, pendingKnown
 }
